@@ -58,7 +58,30 @@ class WatchSpec(SeqSpec):
         MAXPAR = maxpar
         ngates = 0
         nwatch = rng.choice([0, 1, 1, 2])
-        if kind == "first-set-race":
+        if kind == "held":
+            # the window between Value's return and the caller's look at the channel: a caller is held
+            # there (gate 1) while Sets happen, then released: it must find the channel closed
+            pre = rng.random() < 0.6
+            if pre:
+                ops.append(["spawn", add(-1, [["set", setv(0)]])])
+                ops.append(["quiesce"])
+            holders = [add(-1, [["value-held", 1]] + ([["value"]] if rng.random() < 0.5 else [])) for _ in range(rng.choice([1, 1, 2]))]
+            ops += [["spawn", t] for t in holders]
+            if rng.random() < 0.8:
+                ops.append(["quiesce"])
+            n = rng.choice([0, 1, 1, 2]) if len(holders) == 1 else rng.choice([0, 1])
+            grp = []
+            for _ in range(n):
+                t = add(0, None)
+                threads[t]["prog"] = prog_for(t, rng.choice([1, 2]), 0.8)
+                grp.append(t)
+            ops += [["spawn", t] for t in grp]
+            ops.append(["release", 0])
+            if rng.random() < 0.8:
+                ops.append(["quiesce"])
+            ops.append(["release", 1])
+            ngates = 2
+        elif kind == "first-set-race":
             # Value racing the very first Set: nothing set before the group starts
             nwatch = min(nwatch, 1)
             n = min(rng.choice([2, 3, 3]), MAXPAR - nwatch)
@@ -116,7 +139,7 @@ class WatchSpec(SeqSpec):
 
     def gen(self, rng, tier, scale):
         n = int((200 if tier == "quick" else 2400) * scale)
-        return [self.gen_one(rng, "first-set-race" if i % 3 == 0 else "groups", 3 if tier == "quick" else 4) for i in range(n)]
+        return [self.gen_one(rng, ("first-set-race", "groups", "held", "groups")[i % 4], 3 if tier == "quick" else 4) for i in range(n)]
 
     def coq_case(self, case, obs):
         ths = []
@@ -127,6 +150,8 @@ class WatchSpec(SeqSpec):
                     acts.append("ASet %s%%Z" % z(a[1]))
                 elif a[0] == "value":
                     acts.append("AValue")
+                elif a[0] == "value-held":
+                    acts.append("AValueHeld %d" % a[1])
                 else:
                     acts.append("AWatch")
             ths.append("(%s, [%s])" % (optnat(th.get("gate", -1)), "; ".join(acts)))
@@ -252,7 +277,7 @@ class WatchSpec(SeqSpec):
             for t, th in enumerate(case["cfg"]["threads"]):
                 if th["prog"] and th["prog"][-1][0] == "watch" and t in last and t not in open_val:
                     # only once the observer has reached its loop
-                    is_loop = len(th["prog"]) == 1 or sum(1 for r in vals if r["t"] == t) > sum(1 for a in th["prog"] if a[0] == "value")
+                    is_loop = len(th["prog"]) == 1 or sum(1 for r in vals if r["t"] == t) > sum(1 for a in th["prog"] if a[0] in ("value", "value-held"))
                     if is_loop and last[t]["v"] != fv:
                         fails.append(("observer-missed-final-value", "observer goroutine %d is parked with value %d but the final value is %d" % (t, last[t]["v"], fv)))
         return fails
